@@ -47,6 +47,12 @@ pub enum Ret {
 /// Expands a blob spec: `"abc"` is literal, `"abc*300"` is `abc` padded to 300 bytes with a
 /// pattern that depends on the base (so two different keys never share padding by accident).
 pub fn blob(spec: &str) -> Bytes {
+    // "0x80ff00": raw bytes
+    if let Some(hex) = spec.strip_prefix("0x") {
+        if hex.len() % 2 == 0 && hex.bytes().all(|c| c.is_ascii_hexdigit()) {
+            return (0..hex.len() / 2).map(|i| u8::from_str_radix(&hex[2 * i..2 * i + 2], 16).unwrap()).collect();
+        }
+    }
     if let Some((base, n)) = spec.rsplit_once('*') {
         if let Ok(n) = n.parse::<usize>() {
             let mut v = base.as_bytes().to_vec();
